@@ -168,6 +168,36 @@ A = {
  'C19d-shared-catch-code-line': dict(what='vm/runner.go: one package-level MOVE _catch line with spare capacity; fetched catch code is appended into it', needs='a _catch node of at most 7 bytes, two sessions',
     history='initially MISSED (catch nodes of 8 bytes and more). Fixed by: 6-byte catch nodes (HALT / MOVE ^, as in examples/http) in half of the generated race programs'),
  'C20d-ignored-incmp-sets-readin': dict(what='vm/runner.go runInCmp: an ignored INCMP sets READIN again', needs='end node without HALT chosen by a non-final selector', history='caught at once (C20_Outcome, C03_Step)'),
+ # ---- round 5
+ 'C01e-page-reset-drops-sizer': dict(what='render/page.go Reset: drops the sizer; vm.Run resets the page after a HALT without re-attaching it', needs='second screen of a node reached without a move', history='caught at once (C01_FlushFits on program inline)'),
+ 'C02e-vm-reset-reuses-menu': dict(what='vm/runner.go Reset: reuses the Menu object (page count, browse state survive) instead of a new one', needs='long-lived engine, paged content, next', history='caught at once (C02 walks)'),
+ 'C03e-down-keeps-page-index': dict(what='state/state.go Down: no longer resets the page index', needs='descend from page >= 1 of a paged node', history='caught at once (C03_Step, C04_Nav)'),
+ 'C04e-first-restores-index-only-below-entry': dict(what='engine/db.go runFirst: page index restored only if depth > 0', needs='pre-VM check, persisted, paged ENTRY node', history='caught at once (C04_ReqNav on program first)'),
+ 'C05e-deserialize-empties-maps-in-place': dict(what='persist Deserialize: empties the frame maps in place (frames behind the slice end survive)', needs='kept persister with a pop / flush in between, second session',
+    history='caught at once by C07 (C07_ReuseConsistent); C05 has no kept-persister stage'),
+ 'C06e-terminate-read-once-per-run': dict(what='vm/runner.go Run: TERMINATE read once before the loop', needs='external code sets TERMINATE mid-run, instructions follow', history='caught at once (C06_Blocked)'),
+ 'C07e-flush-persister-not-repointed': dict(what='engine/db.go ensurePersist: same line as C12d removed (found independently)', needs='flush persister + new session', history='caught at once (C07_Reuse)'),
+ 'C08e-rewind-one-reset': dict(what='vm/runner.go Rewind: ca.Reset() once instead of Pop per level (same idea as C05c, found independently)', needs='^ from below the top node', history='caught at once (C08_Levels)'),
+ 'C09e-frameof-empty-value-not-defined': dict(what='cache/cache.go frameOf: m[key] != "" instead of comma-ok', needs='a symbol holding the empty value', history='caught at once (C09_Consistent, inductive step)'),
+ 'C10e-fs-binary-keys-unpadded-base64': dict(what='db/fs ToKey (binary mode): RawStdEncoding, DecodeKey still StdEncoding', needs='binary-key mode, Dump, key length not a multiple of 3', history='caught at once (C10_DumpComplete on fsbin)'),
+ 'C11e-omitempty-lastvalue-code-language': dict(what='cbor omitempty on Cache.LastValue, State.Code, State.Language', needs='unflushed kept persister, second stored session with those fields empty',
+    history='caught at once by C07 (C07_Reuse); C11 (storage backends) does not see it'),
+ 'C12e-cbor-decoder-limits-16': dict(what='persist Deserialize: decoder limited to 16 array elements / map pairs', needs='session more than 16 levels deep (or > 16 symbols)',
+    history='initially MISSED by C12 (sessions at most 8 levels deep; C08 caught it: C08_Resumable). Fixed by: the crash-atomicity session is first taken 17 levels deep (18 scopes, 35 symbols) and a fresh process must find it complete'),
+ 'C13e-abort-keeps-handle-when-rollback-fails': dict(what='db/postgres Abort: returns early (handle kept) when Rollback fails', needs='a failing ROLLBACK (alone, or after a failing statement)',
+    history='initially MISSED (ROLLBACK could not fail in the fake). Fixed by: ROLLBACK is a fallible primitive of PgTx.tla and the fake; fault lists with a statement fault followed by a rollback fault'),
+ 'C14e-writesym-length-as-rune': dict(what='asm/asm.go writeSym: length prefix written as string(rune(sz))', needs='symbol of 128..255 bytes through the assembler', history='caught at once (C14_AsmAgrees)'),
+ 'C15e-intsplit-accepts-zero-padded-overlong': dict(what='vm/vm.go intSplit: validity test moved from the encoded length to the decoded value', needs='integer with length byte > 4 and zero bytes in front',
+    history='initially MISSED (over-long integers arose only from single-byte corruption, rarely aligned). Fixed by: every integer of every generated program is also written in 5 and 8 bytes, zero-padded'),
+ 'C16e-batch-flushed-before-every-instruction': dict(what='asm/asm.go MenuExit: pending batch recognised by a non-empty item list (never cleared)', needs='ordinary instructions after the batch lines',
+    history='initially EXCLUDED by the generators (batch lines only as a suffix, after an early false alarm with TWO groups). Fixed by: one batch group anywhere (AsmMC and random sources)'),
+ 'C17e-finish-saves-only-if-execd': dict(what='engine/db.go Finish: Save only if the last Exec ran the VM', needs='kept flushing persister: refused request of one session, then a session new to the store',
+    history='initially MISSED. Fixed by: histories with refused inputs through a kept flushing persister with the second session starting right after a refused request - which found the same hazard in the ORIGINAL for over-long inputs (KF-kept-persister-after-overlong-input)'),
+ 'C18e-mem-get-default-first': dict(what='db/mem Get: default entry first, not-found if absent, translation only overrides', needs='translation without a default entry',
+    history='caught at once by C10 (C10_Result: KvMC puts translations without default entries); the C18 language stage always stores a default entry'),
+ 'C19e-serialize-pooled-buffer-released-early': dict(what='persist Serialize: pooled buffer returned to the pool before its bytes are stored', needs='two sessions saving at the same time', history='caught at once (race detector, transcripts)'),
+ 'C20e-omitempty-code-execpath': dict(what='cbor omitempty on State.Code and ExecPath', needs='unflushed kept persister, ended session loaded after a session in mid-menu',
+    history='caught at once by C07 (C07_Reuse); C20 has no kept-persister stage'),
 }
 for sid, a in A.items():
     mp = os.path.join(V, 'seeded', sid, 'meta.json')
